@@ -4,9 +4,11 @@ import json
 import os
 import re
 
+from concurrent.futures import ThreadPoolExecutor
+
 from lib import vlib
 
-RACE = {"sched": True, "stress": True}
+RACE = {"sched": True, "stress": True, "aim_race": True}
 
 
 def race_reports(d):
@@ -19,70 +21,19 @@ def race_reports(d):
     return out
 
 
-def run(ctx):
-    t = ctx.tier
-    ctx.rule = ("schedules: TLC enumerates every interleaving of the writer's steps (call, register, transport write, return), the peer's responses "
-                "(incl. a duplicated one) and the reader's read+lookup for 2-3 requests; each is forced onto a real rtmp.Protocol with a gated "
-                "transport (no sleeps) and every lookup outcome compared; stress: free-running writer/reader goroutines under -race with the peer "
-                "answering from inside the transport write on a seeded fraction of requests, recorded and validated by TLC against Trace_RtmpTxnConc")
-    ctx.exhaustive = True
-    ctx.assumptions += ["marshal/register/transport-write entry of one WritePacket and read/lookup of one DecodeMessage cannot be separated without a hook inside the library: they are adjacent in replayed schedules (TLC explores the split in MC)",
-                        "stress runs cover the interleavings the Go runtime produces over seeds"]
-    ctx.sany("rtmp", "RtmpTxnConc")
-    ctx.tlc("rtmp", "MC_RtmpTxnConc", "MC_TxnConc.cfg", coverage=(t == "thorough"))
-    ctx.tlc("rtmp", "MC_RtmpTxnConc", "MC_TxnConc_fail.cfg")
-    ctx.tlc("rtmp", "MC_RtmpTxnConc", "MC_TxnConc_deviation.cfg", expect_violation="NoSpurious", count_states=False)
-
-    racedir = os.path.join(ctx.out, "race")
-    os.makedirs(racedir, exist_ok=True)
-    env = {"GORACE": "log_path=%s/race halt_on_error=0 exitcode=0" % racedir}
-
-    cases = os.path.join(ctx.out, "schedules.ndjson")
-    gens = ["Gen_TxnConc.quick.cfg", "Gen_TxnConc_nodup.quick.cfg"] if t == "quick" else ["Gen_TxnConc.thorough.cfg"]
-    gens.append("Gen_TxnConc_fail.cfg")   # a transport write that fails, for a request re-using an outstanding id
-    for g in gens:
-        ctx.tlc("rtmp", "MC_RtmpTxnConc", g, cases_to=cases, count_states=False)
-    res = ctx.replay("sched", cases, race=True, env_extra=env)
-    ctx.judge("sched", cases, res, race=True)
-
-    # code -> model: recorded free-running executions
-    sc = os.path.join(ctx.out, "stress.ndjson")
-    runs = 12 if t == "quick" else 120
-    with open(sc, "w") as f:
-        for pc in (50, 100, 0, 20):
-            f.write(json.dumps({"runs": runs, "n": 40, "ingate_pc": pc}) + "\n")
-    tdir = os.path.join(ctx.out, "traces")
-    try:
-        res = ctx.replay("stress", sc, race=True, dir=tdir, env_extra=env)
-    except vlib.Broken as e:
-        # the Go runtime aborts the process on unsynchronised map access: that is the library's data race, not a tool failure
-        if "concurrent map" in str(e):
-            ctx.fail_results.append(("stress", {"race": True}, {"ok": False, "deviation": "C04/data-race",
-                                                                 "what": "Go runtime: " + str(e)[-1200:]}))
-            ctx.evaluations += 1
-            return
-        raise
-    ctx.judge("stress", sc, res, race=True, reproduce=False)
-    trace = os.path.join(tdir, "trace.ndjson")
-    nev = sum(1 for _ in open(trace))
-    info = ctx.tlc("rtmp", "Trace_RtmpTxnConc", "Trace_RtmpTxnConc.cfg", files={"trace.ndjson": trace}, workers=1,
-                   count_states=False, allow_fail=True, timeout=600, dfs=True)
-    ctx.notes["trace_events_validated"] = nev
-    ctx.notes["stress_runs"] = runs * 4
-    if info.get("rejected"):
-        m = re.search(r'REJECTED at trace line", (\d+)', info.get("tail", ""))
-        if not m and not info.get("violated"):
-            raise vlib.Broken("trace validation failed without a rejection point:\n" + info.get("tail", ""))
-        line = int(m.group(1)) if m else -1
-        lines = open(trace).read().splitlines()
-        ctxlines = lines[max(0, line - 8):line] if line > 0 else []
-        ctx.fail_results.append(("stress", {"trace_excerpt": ctxlines},
-                                 {"ok": False, "what": "recorded execution is not a behaviour of RtmpTxnConc (register-before-write): rejected at trace line %d %s; invariant=%s"
-                                  % (line, lines[line - 1] if 0 < line <= len(lines) else "", info.get("violated"))}))
-    else:
-        ctx.traces_validated += runs * 4
-
-    # binding self-test: one corrupted field of a recorded run must be rejected
+def validate_traces(ctx, tdir, parts):
+    """code -> model: the recorded runs of all free-running stages in one TLC run of Trace_RtmpTxnConc.
+    parts: [(stage, trace file, runs)]. A rejected run becomes a failing result of its stage.
+    Next to it the binding self-test: one corrupted field of a recorded run must be rejected."""
+    trace = os.path.join(tdir, "all.ndjson")
+    bounds = []
+    n = 0
+    with open(trace, "w") as out:
+        for stage, path, runs in parts:
+            lines = open(path).read().splitlines()
+            out.write("".join(l + "\n" for l in lines))
+            bounds.append((n, n + len(lines), stage, runs))
+            n += len(lines)
     lines = open(trace).read().splitlines()
     first = []
     for ln in lines[1:]:
@@ -95,11 +46,154 @@ def run(ctx):
     bad = os.path.join(tdir, "corrupt.ndjson")
     with open(bad, "w") as f:
         f.write("\n".join(first) + "\n")
-    sinfo = ctx.tlc("rtmp", "Trace_RtmpTxnConc", "Trace_RtmpTxnConc.cfg", name="Trace_selftest", files={"trace.ndjson": bad}, workers=1,
-                    count_states=False, allow_fail=True, timeout=300, dfs=True)
+
+    def tl(name, path):
+        return ctx.tlc("rtmp", "Trace_RtmpTxnConc", "Trace_RtmpTxnConc.cfg", name=name, files={"trace.ndjson": path}, workers=1,
+                       count_states=False, allow_fail=True, timeout=600, dfs=True)
+    with ThreadPoolExecutor(max_workers=2) as ex:
+        fi = ex.submit(tl, None, trace)
+        fs = ex.submit(tl, "Trace_selftest", bad)
+        info, sinfo = fi.result(), fs.result()
     if not sinfo.get("rejected"):
         raise vlib.Broken("binding self-test: a trace with a corrupted lookup result was accepted")
     ctx.notes["binding_selftest"] = "corrupted lookup result rejected by Trace_RtmpTxnConc"
+    ctx.notes["trace_events_validated"] = n
+    if info.get("rejected"):
+        m = re.search(r'REJECTED at trace line", (\d+)', info.get("tail", ""))
+        if not m and not info.get("violated"):
+            raise vlib.Broken("trace validation failed without a rejection point:\n" + info.get("tail", ""))
+        line = int(m.group(1)) if m else -1
+        stage = next((st for lo, hi, st, _ in bounds if lo < line <= hi), bounds[-1][2])
+        ctxlines = lines[max(0, line - 8):line] if line > 0 else []
+        ctx.fail_results.append((stage, {"trace_excerpt": ctxlines},
+                                 {"ok": False, "what": "recorded execution is not a behaviour of RtmpTxnConc (a response to a request that was complete in the transport must be matched, once): "
+                                  "rejected at trace line %d %s; invariant=%s" % (line, lines[line - 1] if 0 < line <= len(lines) else "", info.get("violated"))}))
+    else:
+        ctx.traces_validated += sum(r for _, _, _, r in bounds)
+
+
+def run(ctx):
+    t = ctx.tier
+    ctx.rule = ("schedules: TLC enumerates every interleaving of the writer's steps (call, register, 1..3 transport writes per request, return), the peer's "
+                "responses (incl. a duplicated one, sent as soon as the request is complete in the transport) and the reader's read+lookup for 1-3 requests; "
+                "each is forced onto a real rtmp.Protocol with a gated transport (no sleeps; an independent chunk stream parser tells which write completes a "
+                "request) and every lookup outcome compared; sized: the schedules x request sizes below/around/far above a 4 KB write buffer x output chunk "
+                "sizes 128/4096/65536/1048576; stress: free-running writer/reader goroutines under -race with the peer answering from inside the completing transport "
+                "write on a seeded fraction of requests; aim: one outstanding request, request i+1 sent a swept, feedback-centred delay after the transport "
+                "handed response i to the reader (with and without -race); recorded runs validated by TLC against Trace_RtmpTxnConc")
+    ctx.exhaustive = True
+    ctx.assumptions += ["marshal/register/entry of the first transport write of one WritePacket and read/lookup of one DecodeMessage cannot be separated without a hook inside "
+                        "the library: they are adjacent in replayed schedules (TLC explores the split in MC; the aim stage sweeps the writer's registration over the reader's lookup)",
+                        "the number of transport writes of a request is the library's choice: the model's parts are mapped onto the writes the gated transport sees",
+                        "stress and aim runs cover the interleavings the Go runtime produces over seeds and the delay sweep (needs >= 2 CPUs)"]
+    ctx.sany("rtmp", "RtmpTxnConc")
+
+    racedir = os.path.join(ctx.out, "race")
+    os.makedirs(racedir, exist_ok=True)
+    env = {"GORACE": "log_path=%s/race halt_on_error=0 exitcode=0" % racedir}
+
+    if t == "quick":
+        gens = ["Gen_TxnConc.quick.cfg", "Gen_TxnConc_nodup.quick.cfg", "Gen_TxnConc_parts.quick.cfg", "Gen_TxnConc_sized.quick.cfg"]
+    else:
+        gens = ["Gen_TxnConc.thorough.cfg", "Gen_TxnConc_parts.quick.cfg", "Gen_TxnConc_parts.thorough.cfg",
+                "Gen_TxnConc_sized.quick.cfg", "Gen_TxnConc_sized.thorough.cfg"]
+    # a transport write that fails (the only one / a later one of several), for a request re-using an outstanding id
+    gens += ["Gen_TxnConc_fail.cfg", "Gen_TxnConc_failparts.quick.cfg"] + ([] if t == "quick" else ["Gen_TxnConc_failparts.cfg"])
+
+    # the TLC runs are independent of each other: side by side (each small; the JVM start dominates)
+    jobs = [
+        dict(cfg="MC_TxnConc.cfg", coverage=(t == "thorough"), count=True),
+        dict(cfg="MC_TxnConc_fail.cfg", count=True),
+    ] + ([dict(cfg="MC_TxnConc_big.cfg", count=True)] if t == "thorough" else []) + [   # 4 requests, 2/1/3/2 transport writes, two answered twice
+    ] + ([
+        # the property itself needs no more than "registered before the COMPLETING transport write"
+        dict(cfg="MC_TxnConc_beforelast.cfg", count=True)] if t == "thorough" else []) + [
+        # named deviations: the invariants are not vacuous
+        dict(cfg="MC_TxnConc_deviation.cfg", expect_violation="NoSpurious"),            # register-after-write
+        dict(cfg="MC_TxnConc_dev_beforeflush.cfg", expect_violation="NoSpurious"),      # register-before-flush
+        dict(cfg="MC_TxnConc_dev_lookupreset.cfg", expect_violation="NoSpurious"),      # lookup-then-reset
+    ] + ([dict(cfg="MC_TxnConc_dev_lookupreset_loss.cfg", expect_violation="NoLoss")] if t == "thorough" else []) + [dict(cfg=g, cases_to=os.path.join(ctx.out, "cases_%d.ndjson" % k)) for k, g in enumerate(gens)]
+
+    def one(j):
+        j = dict(j)
+        count = j.pop("count", False)
+        info = ctx.tlc("rtmp", "MC_RtmpTxnConc", j.pop("cfg"), count_states=False, workers=2, **j)
+        return count, info
+    with ThreadPoolExecutor(max_workers=6) as ex:
+        done = list(ex.map(one, jobs))
+    for count, info in done:
+        if count:
+            ctx.states += info["distinct"]
+            ctx.transitions += info["generated"]
+    cases = os.path.join(ctx.out, "schedules.ndjson")
+    with open(cases, "w") as f:
+        for j in jobs:
+            if "cases_to" in j:
+                f.write(open(j["cases_to"]).read())
+    res = ctx.replay("sched", cases, race=True, env_extra=env, again=(400 if t == "quick" else None))
+    ctx.judge("sched", cases, res, race=True)
+
+    # code -> model: recorded free-running executions
+    sc = os.path.join(ctx.out, "stress.ndjson")
+    runs = 12 if t == "quick" else 120
+    nstress = 0
+    with open(sc, "w") as f:
+        for pc in (50, 100, 0, 20):
+            f.write(json.dumps({"runs": runs, "n": 40, "ingate_pc": pc}) + "\n")
+            nstress += runs
+        # large requests under a large output chunk size: a request takes several transport writes
+        for size, chunk in ((20000, 65536), (9000, 4096)):
+            f.write(json.dumps({"runs": runs // 3, "n": 40, "ingate_pc": 60, "size": size, "chunk": chunk}) + "\n")
+            nstress += runs // 3
+    tdir = os.path.join(ctx.out, "traces")
+    try:
+        res = ctx.replay("stress", sc, race=True, dir=tdir, env_extra=env)
+    except vlib.Broken as e:
+        # the Go runtime aborts the process on unsynchronised map access: that is the library's data race, not a tool failure
+        if "concurrent map" in str(e):
+            ctx.fail_results.append(("stress", {"race": True}, {"ok": False, "deviation": "C04/data-race",
+                                                                 "what": "Go runtime: " + str(e)[-1200:]}))
+            ctx.evaluations += 1
+            return
+        raise
+    ctx.judge("stress", sc, res, race=True, reproduce=False)
+    parts = [("stress", os.path.join(tdir, "trace.ndjson"), nstress)]
+    ctx.notes["stress_runs"] = nstress
+
+    # aimed interleavings: the writer's registration of request i+1 swept over the reader's handling of response i
+    # (thousands of rounds; a run = one connection with 40 requests; sweep width in ns x extra bytes in the responses x outstanding requests)
+    aruns = 60 if t == "quick" else 600
+    keep = 3 if t == "quick" else 20
+    budget = 2000 if t == "quick" else 30000
+    rounds = 0
+    for race in (False, True):
+        name = "aim_race" if race else "aim"
+        ac = os.path.join(ctx.out, name + ".ndjson")
+        with open(ac, "w") as f:
+            for width, pad, depth in ((1500, 0, 1), (400, 0, 1), (4000, 600, 1), (1500, 0, 2)):
+                f.write(json.dumps({"runs": (aruns // 2 if race else aruns), "n": 40, "width_ns": width * (4 if race else 1), "pad": pad,
+                                    "depth": depth, "keep": keep, "budget_ms": budget, "min_runs": 8}) + "\n")
+        adir = os.path.join(ctx.out, "traces_" + name)
+        try:
+            res = ctx.replay(name, ac, race=race, dir=adir, env_extra=env)
+        except vlib.Broken as e:
+            if "concurrent map" in str(e):
+                ctx.fail_results.append((name, {"race": race}, {"ok": False, "deviation": "C04/data-race", "what": "Go runtime: " + str(e)[-1200:]}))
+                ctx.evaluations += 1
+                return
+            raise
+        for r in res:
+            rounds += (r.get("info") or {}).get("rounds", 0)
+            if not r["ok"]:
+                # a second look: the same stage once more (the interleaving is the runtime's, not ours, to repeat)
+                again = ctx.replay(name, ac, race=race, dir=os.path.join(ctx.out, "traces_again"), env_extra=env)
+                r["what"] += " [stage run again: %s]" % ("failed again" if any(not x["ok"] for x in again) else "passed")
+                break
+        ctx.judge(name, ac, res, race=race, reproduce=False)
+        parts.append((name, os.path.join(adir, "trace.ndjson"), sum((r.get("info") or {}).get("runs_in_trace", 0) for r in res)))
+    ctx.notes["aim_rounds"] = rounds
+
+    validate_traces(ctx, tdir, parts)
 
     # data-race clause
     reps = [r for r in race_reports(racedir) if "go-oryx-lib" in r]
